@@ -112,3 +112,15 @@ Definition finit (s : fstate) : Prop :=
 Definition fwants (s : fstate) (t : tid) (l : lock) : Prop := fwant s t = Some l.
 
 Definition fdeadlock (s : fstate) : Prop := exists D, deadlocked (fwants s) (fowner s) D.
+
+(* ---- balanced programs (every acquired lock is released, only held locks
+        are released): needed for progress, not for deadlock freedom -------- *)
+
+Fixpoint final_held (h : list lock) (p : program) : option (list lock) :=
+  match p with
+  | [] => Some h
+  | Acq l :: r => final_held (l :: h) r
+  | Rel l :: r => if existsb (N.eqb l) h then final_held (remove_one l h) r else None
+  end.
+
+Definition balanced (p : program) : Prop := final_held [] p = Some [].
